@@ -17,3 +17,62 @@ Theorem C02_negated_symbol_complement :
   forall (k : ckind) (a b : ext), eksem (kneg k) a b = negb (eksem k a b).
 Proof. exact eksem_kneg. Qed.
 Print Assumptions C02_negated_symbol_complement.
+
+(* The comparison literals the compile model emits for an aggregate sentence (through the regenerated phrase / negation / symbol /
+   between tables and the three aggregate paths of convert_operation) are true exactly when the comparison the sentence names
+   holds (prohibited) / fails (required) - for EVERY value of the aggregates, including #inf and #sup, every threshold, every phrase
+   of the grammar.  The aggregates are abstract here (any aggregate term, any value): what remains unproved for C02 is that the
+   aggregate terms evaluate to the reading's count/sum/max/min (decided exhaustively per specification by the oracle): PARTIAL. *)
+Require Import Coq.Strings.String.
+Require Import Cnl2aspV.Cnl.Comparison Cnl2aspV.Cnl.Aggregate Cnl2aspV.Cnl.AggregateProofs.
+
+Theorem C02_comparison_phrase_number_partial :
+  forall sp I g t1 v1 ph k req lits rest,
+  agg_eval sp I g t1 = Some v1 -> forallb outer_only rest = true ->
+  match parse_simple ph (OAgg t1) (ONum k) with Some c => convert_cmp (apply_polarity req c) | None => None end = Some lits ->
+  exists kd, named_kind ph = Some kd /\
+             lits_true sp I g [] (lits ++ rest) = negb (Bool.eqb (eksem kd v1 (EFin k)) req) && lits_true sp I g [] rest.
+Proof. exact cmp_phrase_number. Qed.
+Print Assumptions C02_comparison_phrase_number_partial.
+
+Theorem C02_comparison_between_numbers_partial :
+  forall sp I g t1 v1 lo hi req lits rest,
+  agg_eval sp I g t1 = Some v1 -> forallb outer_only rest = true ->
+  match parse_between (OAgg t1) (ONum lo) (ONum hi) with Some c => convert_cmp (apply_polarity req c) | None => None end = Some lits ->
+  lits_true sp I g [] (lits ++ rest) = negb (Bool.eqb (ext_leb (EFin lo) v1 && ext_leb v1 (EFin hi)) req) && lits_true sp I g [] rest.
+Proof. exact cmp_between_numbers. Qed.
+Print Assumptions C02_comparison_between_numbers_partial.
+
+Theorem C02_comparison_phrase_aggregate_partial :
+  forall sp I g t1 t2 v1 v2 ph req lits rest,
+  fresh_free g -> agg_eval sp I g t1 = Some v1 -> agg_eval sp I g t2 = Some v2 -> forallb outer_only rest = true ->
+  match parse_simple ph (OAgg t1) (OAgg t2) with Some c => convert_cmp (apply_polarity req c) | None => None end = Some lits ->
+  exists kd, named_kind ph = Some kd /\
+             lits_true sp I g [] (lits ++ rest) = negb (Bool.eqb (eksem kd v1 v2) req) && lits_true sp I g [] rest.
+Proof. exact cmp_phrase_aggregate. Qed.
+Print Assumptions C02_comparison_phrase_aggregate_partial.
+
+Theorem C02_comparison_between_number_aggregate_partial :
+  forall sp I g t1 t2 v1 v2 lo req lits rest,
+  fresh_free g -> agg_eval sp I g t1 = Some v1 -> agg_eval sp I g t2 = Some v2 -> forallb outer_only rest = true ->
+  match parse_between (OAgg t1) (ONum lo) (OAgg t2) with Some c => convert_cmp (apply_polarity req c) | None => None end = Some lits ->
+  lits_true sp I g [] (lits ++ rest) = negb (Bool.eqb (ext_leb (EFin lo) v1 && ext_leb v1 v2) req) && lits_true sp I g [] rest.
+Proof. exact cmp_between_number_aggregate. Qed.
+Print Assumptions C02_comparison_between_number_aggregate_partial.
+
+Theorem C02_comparison_between_aggregates_partial :
+  forall sp I g t1 t2 t3 v1 v2 v3 req lits rest,
+  fresh_free g -> agg_eval sp I g t1 = Some v1 -> agg_eval sp I g t2 = Some v2 -> agg_eval sp I g t3 = Some v3 -> forallb outer_only rest = true ->
+  match parse_between (OAgg t1) (OAgg t2) (OAgg t3) with Some c => convert_cmp (apply_polarity req c) | None => None end = Some lits ->
+  lits_true sp I g [] (lits ++ rest) = negb (Bool.eqb (ext_leb v2 v1 && ext_leb v1 v3) req) && lits_true sp I g [] rest.
+Proof. exact cmp_between_aggregates. Qed.
+Print Assumptions C02_comparison_between_aggregates_partial.
+
+(* the hypotheses are satisfiable: "the number of shelf id of a host is more than 2", two rooms, two shelves, one hosted *)
+Example C02_hypotheses_satisfiable :
+  let sp := {| a_rooms := 2; a_shelves := [(1, 3); (2, 3)]%Z; a_required := false;
+               a_agg := {| g_fn := ACount; g_form := FParamShelf; g_side := None; g_label := None; g_dlabel := None; g_filter := None |};
+               a_cmp := CPhrase "more than" 2; a_whenever := []; a_owhere := None |} in
+  exists t1 lits, compile_aggr 1 (a_agg sp) = Some t1 /\ agg_eval sp [(1, 2)%Z] [] t1 = Some (EFin 1) /\
+                  match parse_simple "more than" (OAgg t1) (ONum 2) with Some c => convert_cmp (apply_polarity false c) | None => None end = Some lits.
+Proof. cbn zeta. eexists. eexists. split; [vm_compute; reflexivity|]. split; vm_compute; reflexivity. Qed.
